@@ -67,7 +67,8 @@ def view_stage(work, res, tier, prefixes, replay=None):
             return r, out
 
         traces = []
-        cached = cache_load(tier)
+        ov = any(p in ("C01_", "C07_") for p in prefixes)
+        cached = cache_load(tier, ov)
         if cached:
             # The six membership properties share this stage.  Its result for exactly this tree, this machinery, tier and
             # seed was computed by an earlier thorough check and contained no verdict of any property: it is reused.
@@ -87,7 +88,7 @@ def view_stage(work, res, tier, prefixes, replay=None):
             for tr in traces:
                 tr["samples"] = trace_samples(tr["trace"])
             if tier == "thorough" and not any(tr["judged"]["verdicts"] for tr in traces):
-                cache_store(tier, rs, traces)
+                cache_store(tier, rs, traces, ov)
 
     stats_total = {}
     nverd = 0
@@ -155,11 +156,11 @@ def trace_samples(trace):
     return out
 
 
-def cache_key(tier):
+def cache_key(tier, ov=False):
     """content hash of everything the view stage depends on: the tree under test, the machinery, tier and seed"""
     import hashlib
     h = hashlib.sha256()
-    h.update(("%s|%s|%s" % (tier, vlib.SEED, json.dumps(TIERS[tier]))).encode())
+    h.update(("%s|%s|%s|%s" % (tier, vlib.SEED, json.dumps(TIERS[tier]), "overlap" if ov else "")).encode())
     roots = [(vlib.REPO, (".go", ".mod", ".sum"))] + [(os.path.join(vlib.VERIF, d), None) for d in ("spec", "cfg", "harness", "bin")]
     for root, exts in roots:
         for dp, dn, fn in sorted(os.walk(root)):
@@ -181,10 +182,10 @@ def cache_dir():
     return os.environ.get("VERIF_CACHE") or os.path.join(vlib.VERIF, ".cache")
 
 
-def cache_load(tier):
+def cache_load(tier, ov=False):
     if tier != "thorough" or os.environ.get("VERIF_NOCACHE"):
         return None
-    key = cache_key(tier)
+    key = cache_key(tier, ov)
     p = os.path.join(cache_dir(), "view-%s.json" % key)
     if not os.path.exists(p):
         return None
@@ -203,11 +204,11 @@ def cache_load(tier):
     return c
 
 
-def cache_store(tier, models, traces):
+def cache_store(tier, models, traces, ov=False):
     if os.environ.get("VERIF_NOCACHE"):
         return
     import time
-    key = cache_key(tier)
+    key = cache_key(tier, ov)
     os.makedirs(cache_dir(), exist_ok=True)
     keep = [{"replayed": tr["replayed"], "skipped": tr["skipped"], "variant": tr["variant"], "samples": tr.get("samples", []),
              "judged": {"lines": tr["judged"]["lines"], "verdicts": [], "drift": tr["judged"]["drift"],
